@@ -273,7 +273,11 @@ pixman_glyph_cache_insert (pixman_glyph_cache_t  *cache,
     width = image->bits.width;
     height = image->bits.height;
 
-    if (cache->n_glyphs >= HASH_SIZE)
+    /* The probe loops in lookup_glyph() and insert_glyph() stop at an
+     * empty slot, and tombstones are not empty: always leave one slot
+     * that is neither a glyph nor a tombstone.
+     */
+    if (cache->n_glyphs + cache->n_tombstones >= HASH_SIZE - 1)
 	return NULL;
 
     if (!(glyph = malloc (sizeof *glyph)))
